@@ -43,6 +43,24 @@ def _is_boolish(e):
     return False
 
 
+FLAG_CALLS = ("isclose", "isnan", "isfinite", "isinf", "isreal", "logical_and", "logical_or", "logical_not", "logical_xor", "greater", "less", "equal", "not_equal",
+              "greater_equal", "less_equal", "any", "all", "is_versor", "is_pure", "is_real", "is_identity", "isin", "astype")
+
+
+def _flag_valued(e):
+    """an expression that yields truth flags: a comparison, a boolean combination, or one of NumPy's predicate functions"""
+    if isinstance(e, (ast.Compare, ast.BoolOp)):
+        return True
+    if isinstance(e, ast.UnaryOp) and isinstance(e.op, (ast.Not, ast.Invert)):
+        return True
+    if isinstance(e, ast.BinOp) and isinstance(e.op, (ast.BitAnd, ast.BitOr, ast.BitXor)):
+        return True
+    if isinstance(e, ast.Call):
+        nm = _last(e)
+        return nm in FLAG_CALLS and not (nm == "astype" and "bool" not in ast.unparse(e))
+    return False
+
+
 def _test_positions(fnode):
     """expressions evaluated for their truth value"""
     for n in _own_nodes(fnode):
@@ -78,6 +96,15 @@ def all_as_nonnull(chk, prog, files):
                 if arg is None:
                     continue
                 n += 1
+                base_ = arg
+                while isinstance(base_, ast.Subscript):
+                    base_ = base_.value
+                if isinstance(base_, ast.Name):
+                    # a local that holds flags already (valid = norms > 0; ok = np.isfinite(x)) is a legitimate argument of all()
+                    defs_ = [x.value for x in _own_nodes(f.node) if isinstance(x, ast.Assign) and any(isinstance(t_, ast.Name) and t_.id == base_.id for t_ in x.targets)]
+                    defs_ += [x.value for x in _own_nodes(f.node) if isinstance(x, ast.AugAssign) and isinstance(x.target, ast.Name) and x.target.id == base_.id]
+                    if any(_flag_valued(d_) for d_ in defs_):
+                        continue
                 if not _is_boolish(arg) and isinstance(arg, (ast.Name, ast.Attribute, ast.Subscript)):
                     chk.finding("ALL-AS-NONNULL", f.module.rel, f.qname, "%s used as a truth value" % ast.unparse(leaf)[:60],
                                 "`%s` is true only when EVERY component of `%s` is non-zero: a valid sample with one exactly-zero component (a level device, a rate about one axis) "
